@@ -63,3 +63,7 @@ impl Header {
         serialized_size(&self).expect("blob header size")
     }
 }
+
+#[cfg(any(kani, pearl_verif))]
+#[path = "/verif/kani/layout_blob_header.rs"]
+mod verif_kani;
